@@ -485,6 +485,31 @@ theorem detwingle_call_default (bs : Bytes) :
 example : detwingleCall [0x61, 0x93] (ofS "latin-1") (ofS "windows-1252") = .notImplemented := of_evalsTo (by decide +kernel)
 example : detwingleCall [0x61, 0x93] (ofS "UTF-8") (ofS "WINDOWS_1252") = .ok [0x61, 0xE2, 0x80, 0x9C] := of_evalsTo (by decide +kernel)
 
+/-- Letter case and `_` for `-` do not matter in an encoding name: the normal form of a spelling. -/
+def normName (s : PStr) : PStr := s.map fun c => let c := if c = 95 then 45 else c; if 65 ≤ c && c ≤ 90 then c + 32 else c
+
+/-- **Every accepted spelling of the optional arguments**: when `embedded_encoding` is `windows-1252`
+    written in any letter case and with `_` or `-`, and `main_encoding` is `utf8` or `utf-8` in any letter
+    case, the call passes the argument checks and returns what the loop computes — the same as the
+    one-argument call.  (No `NotImplementedError` for `"windows_1252"`, `"Windows-1252"`, `"UTF-8"`, ….) -/
+theorem detwingle_call_accepted_spellings (bs : Bytes) (mainEnc embEnc : PStr)
+    (he : normName embEnc = nWindows1252)
+    (hm : asciiLower mainEnc = ofS "utf8" ∨ asciiLower mainEnc = ofS "utf-8") :
+    ∃ out, detwingle bs = some out ∧ detwingleCall bs mainEnc embEnc = .ok out := by
+  obtain ⟨out, hout⟩ := Option.isSome_iff_exists.mp (detwingle_total bs)
+  refine ⟨out, hout, ?_⟩
+  have h1 : asciiLower (embEnc.map fun c => if c = 95 then 45 else c) = ofS "windows-1252" := by
+    have : ofS "windows-1252" = nWindows1252 := by decide +kernel
+    rw [this, ← he]
+    simp [normName, asciiLower, List.map_map, Function.comp_def]
+  unfold detwingleCall
+  simp only [h1, hm, true_or, not_true_eq_false, if_false, detwingleImpl_eq, hout]
+
+example : normName (ofS "Windows_1252") = nWindows1252 ∧ normName (ofS "WINDOWS-1252") = nWindows1252 ∧
+    asciiLower (ofS "UTF-8") = ofS "utf-8" := by decide +kernel
+example : detwingleCall [0x61, 0x93] (ofS "utf8") (ofS "windows_1252") = .ok [0x61, 0xE2, 0x80, 0x9C] := of_evalsTo (by decide +kernel)
+example : detwingleCall [0x61, 0x93] (ofS "utf8") (ofS "cp1252") = .notImplemented := of_evalsTo (by decide +kernel)
+
 /-- **Valid UTF-8 is returned unchanged** — for every byte list that is the UTF-8 encoding of a
     sequence of Unicode scalar values. -/
 theorem detwingle_valid_id (bs : Bytes) (h : ValidUtf8 bs) : detwingle bs = some bs := by
